@@ -1977,5 +1977,72 @@ Proof.
   destruct (C02_preamble_indent _ _ _ _ _ _ _ _ Hk Hprep)
     as (e & eb & lename & newline & cb & lines & H1 & H2 & H3 & H4 & H5 & H6 & H7 & H8 & H9 & H10).
   exists e, eb, lename, newline, cb, lines, h. subst body le_out.
-  repeat (split; [assumption|]). cbv zeta. split; [exact Hh|exact Ho].
+  repeat (split; [assumption|]). exact Ho.
 Qed.
+
+(* ================================================================================================ *)
+(** * Definitions used by the examples in props/C02.v *)
+
+Definition T (s : String.string) : text := ascii_text (B s).
+Definition LF : bytes := [x0a].
+(* "Hello\nwörld" — no final newline, one non-ASCII code point *)
+Definition ex_text : text := T "Hello" ++ [10%N] ++ T "w" ++ [246%N] ++ T "rld".
+Definition ex_json : json := JObj [(T "zeta", JInt 3); (T "alpha", JList [JBool true; JNull])].
+Definition ex_preamble_call : call := WritePreamble (WStr ex_text) WNone (Some (WInt 4)) WNone (WStr (T "text/plain")).
+Definition ex_meta_call : call := WriteMeta (WDict ex_json) WNone None.
+Definition ex_calls : list call := [ex_preamble_call; ex_meta_call].
+Definition ex_opts : list (bytes * wv) :=
+  [(B "length", WInt 118); (B "format", WStr (T "json")); (B "encoding", WNone)].
+(* the state of a writer constructed with encoding utf-8, version 1.0 (WriterFacts.s_ex) *)
+Definition ex_state : wstate := WriterFacts.s_ex.
+
+Definition ex_json_bytes : bytes :=
+  B "{" ++ LF ++
+  B "    ""alpha"": [" ++ LF ++
+  B "        true," ++ LF ++
+  B "        null" ++ LF ++
+  B "    ]," ++ LF ++
+  B "    ""zeta"": 3" ++ LF ++
+  B "}".
+
+Definition ex_preamble_body : bytes :=
+  B "    Hello" ++ LF ++ B "    w" ++ [xc3; xb6] ++ B "rld" ++ LF.
+
+Definition ex_stream : bytes :=
+  B "#diffx: encoding=utf-8, version=1.0" ++ LF ++
+  B "#.preamble: indent=4, length=21, line_endings=unix, mimetype=text/plain" ++ LF ++
+  ex_preamble_body ++
+  B "#.meta: format=json, length=66" ++ LF ++
+  ex_json_bytes ++ LF.
+
+Lemma small_4 : small_int 4 /\ small_int 118.
+Proof. split; apply small_int_bound; vm_compute; reflexivity. Qed.
+
+Lemma ex_opts_good : Forall good_opt ex_opts /\ NoDup (map fst ex_opts).
+Proof.
+  split.
+  - constructor; [|constructor; [|constructor; [|constructor]]]; (split; [apply key_spec; reflexivity|]); cbn [snd].
+    + apply GV_int. apply small_4.
+    + apply (GV_str (B "json")). apply HeaderFacts.spec_val_iff. reflexivity.
+    + apply GV_none.
+  - apply HeaderFacts.nodup_b_sound. reflexivity.
+Qed.
+
+Lemma ex_calls_good : Forall call_args_good ex_calls.
+Proof.
+  constructor; [|constructor; [|constructor]].
+  - split; [left; reflexivity|]. right. exists 4%Z. split; [reflexivity|apply small_4].
+  - left. reflexivity.
+Qed.
+
+Lemma ex_enc_good : enc_good (WStr (T "utf-16")) /\ enc_good WNone.
+Proof.
+  split; [|left; reflexivity]. right.
+  destruct (find_row (B "utf-16") GenCodecs.rows) as [r|] eqn:E.
+  - exists (B "utf-16"), r. split; [reflexivity|exact E].
+  - exfalso. assert (H : match find_row (B "utf-16") GenCodecs.rows with Some _ => True | None => False end)
+      by (vm_compute; exact I). rewrite E in H. exact H.
+Qed.
+
+Lemma ex_floats_ascii : floats_ascii ex_json.
+Proof. repeat constructor. Qed.
